@@ -14,6 +14,7 @@ import (
 	"mellium.im/xmpp"
 	"mellium.im/xmpp/mux"
 	"mellium.im/xmpp/stanza"
+	"mellium.im/xmpp/stream"
 )
 
 type rEl struct {
@@ -29,7 +30,7 @@ type rEl struct {
 type rProg struct {
 	Read string `json:"read"`
 	W    string `json:"w"`
-	Ret  string `json:"ret"` // ok | err | stanzaerr (the handler returns a stanza.Error value)
+	Ret  string `json:"ret"` // ok | err | stanzaerr (the handler returns a stanza.Error value) | eof | weof | ueof | wstanzaerr | streamerr | wstreamerr
 	Mut  string `json:"mut"` // what the handler does to the start element it was handed: none | type | name | id | from | clear
 }
 
@@ -313,8 +314,22 @@ func (r *run7) program(t xmlstream.TokenReadEncoder, sentinel bool, start *xml.S
 		return errHandler
 	case "stanzaerr":
 		return stanza.Error{Type: stanza.Modify, Condition: stanza.Condition(handlerCond)}
+	case "eof": // "I reached the end of my element"
+		return io.EOF
+	case "weof": // what a handler makes of the io.EOF of decoding an empty payload when it adds context
+		return fmt.Errorf("verif: decoding the payload: %w", io.EOF)
+	case "ueof":
+		return io.ErrUnexpectedEOF
+	case "wstanzaerr":
+		return fmt.Errorf("verif: handler: %w", stanza.Error{Type: stanza.Modify, Condition: stanza.Condition(handlerCond)})
+	case "streamerr":
+		return stream.PolicyViolation
+	case "wstreamerr":
+		return fmt.Errorf("verif: handler: %w", stream.PolicyViolation)
+	case "ok":
+		return nil
 	}
-	return nil
+	panic("driver: unknown return kind " + r.v.P.Ret)
 }
 
 func isSentinelStart(start *xml.StartElement) bool {
